@@ -31,6 +31,8 @@ IMG_DATA = {
     "I4": {"diagrams": [[[0.5, 1.5], [1.0, 1.25]], [[0.25, 2.0]]], "pattern": [0, 1, 0, 0]},
     # a collection containing an EMPTY diagram (a (0,2) array): it has no pairs to enclose and an all-zero image
     "I8": [[[0.2, 0.7], [0.4, 1.9]], [], [[0.0, 1.0]]],
+    # several empty diagrams, at the front and between non-empty ones
+    "I9": [[], [], [[0.2, 0.7]], [], [[0.0, 1.0], [0.5, 0.8]]],
 }
 THOROUGH_ONLY = {"I5", "I6", "L4", "L5"}
 TIER = "quick"
@@ -69,6 +71,9 @@ ESTIMATORS = [
     {"cls": "imager", "kw": {}},
     {"cls": "imager", "kw": {"pixel_size": 0.5}},
     {"cls": "imager", "kw": {"pixel_size": 0.3, "kernel": "box", "kernel_params": {"w": 0.5}}},
+    # isotropic Gaussian kernels with a variance other than 1, as a matrix and as a scalar
+    {"cls": "imager", "kw": {"pixel_size": 0.5, "kernel_params": {"sigma": [[0.25, 0.0], [0.0, 0.25]]}}},
+    {"cls": "imager", "kw": {"pixel_size": 0.4, "kernel_params": {"sigma": 0.09}}},
     {"cls": "landscaper", "kw": {"num_steps": 5}},
     {"cls": "landscaper", "kw": {"num_steps": 5, "start": 0.0}},
     {"cls": "landscaper", "kw": {"num_steps": 6, "stop": 6.0}},
@@ -253,6 +258,12 @@ def run_history(case, ctx):
                 bad("transform-not-repeatable", "two transform calls on the same data differ", out_digest(out2), out_digest(out))
             if cls == "imager":
                 d = data_for(init, op[1])
+                # the same collection / diagram through the joblib path (n_jobs given; in-process for 1)
+                outp = est.transform(d, skew=False, n_jobs=1) if len(op) > 2 else est.transform(d, n_jobs=1)
+                ctx.trans()
+                ctx.valid()
+                if not same_out(out, outp):
+                    bad("transform-n_jobs", "transform(D, n_jobs=1) differs from transform(D)", out_digest(outp), out_digest(out))
                 if isinstance(d, list):
                     ctx.valid()
                     if not isinstance(out, list) or len(out) != len(d):
@@ -320,7 +331,7 @@ def run_shard(ctx):
         history.bfs(ctx, _M, [init], ops, depth - 1, run_history, prefix=[first])
         # full tree (no de-duplication) of 4-call (thorough 5-call) histories over a reduced alphabet:
         # behaviour that depends on the NUMBER or ORDER of earlier calls cannot hide behind a repeated state
-        if e in (0, 3, 4):
+        if e in (0, 5, 6):
             keys = ["I1", "I7"] if init["cls"] == "imager" else ["L1", "L2"]
             red = [[op, k] for op in ("fit", "transform", "fit_transform") for k in keys]
             if first in red:
